@@ -686,6 +686,8 @@ class Tr:
         A = lambda i: fn.E(args[i], env)
         if isinstance(f, ast.Name):
             nm = f.id
+            if nm in env:
+                raise Problem('%s: call of the local name %s (it shadows a table entry)' % (fn.name, nm))
             if nm == 'int' and len(args) == 1 and not kw:
                 v = A(0)
                 if v.ty == 'Z':
@@ -738,6 +740,11 @@ class Tr:
         if isinstance(f, ast.Attribute):
             recv = f.value
             meth = f.attr
+            root = f
+            while isinstance(root, ast.Attribute):
+                root = root.value
+            if isinstance(root, ast.Name) and root.id in ('hashlib', 'time_mod', 'warnings', 'VALID_TOKEN') and root.id in env:
+                raise Problem('%s: the local name %s shadows a module the table relies on' % (fn.name, root.id))
             # ''.join(map(chr, X))
             if meth == 'join' and isinstance(recv, ast.Constant) and recv.value == '' and len(args) == 1 \
                     and isinstance(args[0], ast.Call) and U(args[0].func) == 'map' and U(args[0].args[0]) == 'chr':
